@@ -15,7 +15,8 @@ def sh(cmd, cwd=None, env=None, timeout=1800):
 def main():
     pid = sys.argv[1]
     checks = sys.argv[2:] or [pid]
-    wt, outd = "/tmp/seed-" + pid, "/tmp/seedout-" + pid
+    tag = os.environ.get("SEED_TAG", "")  # later rounds: /tmp/seed-<ID><tag>, recorded as seeded/<ID><tag>
+    wt, outd = "/tmp/seed-" + pid + tag, "/tmp/seedout-" + pid + tag
     meta = json.load(open(outd + "/meta.json"))
     demo_rel = meta["demo_path_in_worktree"]
     demo_abs = os.path.join(wt, demo_rel)
@@ -25,11 +26,11 @@ def main():
     files = sh("git diff --name-only", cwd=wt)[1].split()
     res["files_changed"] = files
     assert diff.strip(), "no patch applied in the worktree"
-    d = "/verif/seeded/" + pid
+    d = "/verif/seeded/" + pid + tag
     os.makedirs(d, exist_ok=True)
     open(d + "/patch.diff", "w").write(diff)
     # 1. builds, suite passes with patch and without the demo file
-    tmp_demo = "/tmp/seed-demo-%s.go.keep" % pid
+    tmp_demo = "/tmp/seed-demo-%s%s.go.keep" % (pid, tag)
     has_demo = os.path.exists(demo_abs)
     if has_demo:
         shutil.copy(demo_abs, d + "/" + os.path.basename(demo_rel))
